@@ -54,6 +54,11 @@ INLINE_CASES: list[tuple[str, dict[str, str], str, str, list[str]]] = [
      "macro o1($v) { b1(); if ($v == 1) { ~in1($v, 1); } e1(); }\nmacro o2($v) { b2(); if ($v == 1) { x(); } elseif ($v == 2) { ~in2($v, 2); } e2(); }\nmacro o3($v) { b3(); if ($v == 1) { x(); } else { ~in3($v, 3); } e3(); }\nmacro o4($v) { b4(); switch ($v) { case 1: ~in4($v, 4); break; default: x(); } e4(); }\nmacro o5($v) { b5(); switch ($v) { case 1: x(); break; default: ~in5($v, 5); } e5(); }\nmacro o6($v) { b6(); forever { ~in6($v, 6); break_loop; } e6(); }\nmacro o7($v) { b7(); while ($v < 3) { ~in7($v, 7); } e7(); }\nmacro o8($v) { b8(); for ($I = 0; $I < 2; $I += 1;) { ~in8($v, 8); } e8(); }\nmacro o9($v) { b9(); if ($v == 4) { while ($v < 5) { for ($J = 0; $J < 3; $J += 1;) { switch ($v) { case 7: forever { ~in9($v, 9); break_loop; } } } } } e9(); }\nmacro in9($a, $b) { c9($a, $b); }\nmacro in8($a, $b) { c8($a, $b); }\nmacro in7($a, $b) { c7($a, $b); }\nmacro in6($a, $b) { c6($a, $b); }\nmacro in5($a, $b) { c5($a, $b); }\nmacro in4($a, $b) { c4($a, $b); }\nmacro in3($a, $b) { c3($a, $b); }\nmacro in2($a, $b) { c2($a, $b); }\nmacro in1($a, $b) { c1($a, $b); }\n"
      "def 0 { ~o1($A); ~o2($A); ~o3($A); ~o4($A); ~o5($A); ~o6($A); ~o7($A); ~o8($A); ~o9($A); end; }",
      "def 0 { b1(); if ($A == 1) { c1($A, 1); } e1(); b2(); if ($A == 1) { x(); } elseif ($A == 2) { c2($A, 2); } e2(); b3(); if ($A == 1) { x(); } else { c3($A, 3); } e3(); b4(); switch ($A) { case 1: c4($A, 4); break; default: x(); } e4(); b5(); switch ($A) { case 1: x(); break; default: c5($A, 5); } e5(); b6(); forever { c6($A, 6); break_loop; } e6(); b7(); while ($A < 3) { c7($A, 7); } e7(); b8(); for ($I = 0; $I < 2; $I += 1;) { c8($A, 8); } e8(); b9(); if ($A == 4) { while ($A < 5) { for ($J = 0; $J < 3; $J += 1;) { switch ($A) { case 7: forever { c9($A, 9); break_loop; } } } } } e9(); end; }", []),
+    ("macro-names-that-concatenate-alike", {},
+     "macro scene() { sc1(); ~inout(1); ~out(2); sc2(); }\nmacro inout($a) { io($a); ~fade($a); }\nmacro out($b) { ou($b); ~fadein($b); }\n"
+     "macro fadein($c) { fi($c); if ($c == 1) { return; } fi2(); }\nmacro fade($d) { fa($d); }\nmacro a($x) { ma($x); ~bc($x); }\nmacro ab($x) { mab($x); ~c($x); }\n"
+     "macro c($x) { mc($x); }\nmacro bc($x) { mbc($x); }\ndef 0 { ~scene(); ~ab(3); ~a(4); end; }",
+     "def 0 { sc1(); io(1); fa(1); ou(2); fi(2); if (2 == 1) { jump @e1; } fi2(); §e1; sc2(); mab(3); mc(3); ma(4); mbc(4); end; }", []),
     ("nested-files", {"/proj/lib/m.exps": 'import "./inner.exps";\nmacro outer($a, $b) { x($a); ~inner($b, 5); if ($V == 1) { return; } y($b); }\n',
                       "/proj/lib/inner.exps": "macro inner($p, $q) { i1($p); i2($q); }\n"},
      'import "./lib/m.exps";\nmacro local($z) { l($z); }\ndef 0 { a(); ~outer(1, CONST); ~local(3); ~outer(2, 4); end; }',
@@ -118,7 +123,7 @@ def _pipe(ctx: Any) -> Any:
     return Pipeline(ctx.repo, ctx.fold)
 
 
-def inline_rule(chk: Check, ctx: Any, rule: str) -> None:
+def inline_rule(chk: Check, ctx: Any, rule: str, rejects: bool = True) -> None:
     from ..engine.sta import compiled_graph, bisimilar
     repo = ctx.repo
     fold = ctx.fold
@@ -162,8 +167,9 @@ def inline_rule(chk: Check, ctx: Any, rule: str) -> None:
                                              f"main file {main!r} compiles to {ops}")
         else:
             chk.hold(rule, key, anchor, "behaves like the hand-inlined program")
-    n += reject_projects(chk, ctx, rule, P)
-    chk.floor(rule, "multi-file macro projects compiled abstractly", n, 20)
+    if rejects:
+        n += reject_projects(chk, ctx, rule, P)
+    chk.floor(rule, "multi-file macro projects compiled abstractly", n, 20 if rejects else 12)
 
 
 def reject_projects(chk: Check, ctx: Any, rule: str, P: Any = None) -> int:
@@ -201,6 +207,26 @@ def reject_projects(chk: Check, ctx: Any, rule: str, P: Any = None) -> int:
                        f"second program `{name}` ({what}) fails with {e.cls_name} ({e.msg}) instead of SsbCompilerError, ValueError or ParseError", f"rejected: {e.cls_name}")
         except (Unsupported, AnalysisError) as e:
             chk.unknown(rule, key, anchor, f"second program `{name}`: abstract interpretation left the modelled subset: {e}")
+    # the file system changes between two compilations in one process: an imported file that is gone is a missing import again
+    lib = {"/proj/common/util.exps": "macro u() { from_util(); }\n", "/proj/lib/rel.exps": "macro r() { from_rel(); }\n"}
+    for name, main, lookup, gone in (("lookup-path-import-removed", 'import "util.exps";\ndef 0 { ~u(); end; }', ["common"], "/proj/common/util.exps"),
+                                     ("relative-import-removed", 'import "./lib/rel.exps";\ndef 0 { ~r(); end; }', [], "/proj/lib/rel.exps")):
+        key = f"reject-after-file-removed:{name}"
+        n += 1
+        try:
+            P.compile_exps(main, "/proj/main.exps", lib, lookup)
+        except (PyExc, Unsupported, AnalysisError) as e:
+            chk.unknown(rule, key, anchor, f"the project does not compile abstractly while the file exists: {e}")
+            continue
+        try:
+            P.compile_exps(main, "/proj/main.exps", {k: v for k, v in lib.items() if k != gone}, lookup)
+            chk.violation(rule, key, anchor, f"`{main}` compiled once, then {gone} is removed: the second compilation in the same process still succeeds")
+        except PyExc as e:
+            chk.decide(rule, key, e.cls_name in ("SsbCompilerError", "ValueError", "ParseError"), anchor,
+                       f"`{main}` compiled once, then {gone} is removed: the second compilation in the same process fails with {e.cls_name} ({e.msg}) instead of "
+                       "SsbCompilerError, ValueError or ParseError", f"rejected: {e.cls_name}")
+        except (Unsupported, AnalysisError) as e:
+            chk.unknown(rule, key, anchor, f"second compilation: abstract interpretation left the modelled subset: {e}")
     return n
 
 
